@@ -146,7 +146,7 @@ def libReadV2 (crc : Bytes → Nat) (dec : Int → Bytes → Option Bytes) (bs :
                   | none => .err                             -- unsupported codec / decompression failed
                   | some p =>
                     if crc body ≠ c then .err                -- "crc32 checksum mismatch"
-                    else if f.count < 0 then .err            -- make([]optimizedRecord, numRecords) panics
+                    else if f.count < 0 ∨ f.count > (p.length : Int) then .err   -- "invalid record count" (fix e9a71f7)
                     else .ok (libIsControl f.attributes)
                       ((libRecords f.baseOffset f.firstTs f.count.toNat p).map (stamp (libLogAppendV2 f.attributes) f.maxTs)) rest
 
